@@ -172,7 +172,7 @@ func c40Handler(site string, kv ...int64) {
 		if g != nil {
 			g.park(site)
 		}
-	case "qm.shard.dequeued", "qm.shard.exit", "qm.shard.timer_fired":
+	case "qm.shard.dequeued", "qm.shard.exit", "qm.shard.timer_fired", "qm.shard.timer":
 		r.mu.Lock()
 		g := r.shards[int(kv[1])]
 		r.mu.Unlock()
@@ -388,8 +388,13 @@ func (r *c40Run) replay(t *testing.T) {
 				setDeadline(time.Hour)
 			}
 		case "TimerTake":
-			// the goroutine calls queue.Batch() now and sends what it got (the Send steps follow)
-			r.shards[st.Q].release()
+			// the goroutine calls queue.Batch() now (site qm.shard.timer follows it) and sends what it got (Send steps follow)
+			g := r.shards[st.Q]
+			g.release()
+			if s, ok := g.wait(c40Wait); !ok || s != "qm.shard.timer" {
+				r.fail("drift", "", fmt.Sprintf("%s: shard did not call queue.Batch() (%q)", where, s))
+				follow = false
+			}
 		case "ShardExit":
 			g := r.shards[st.Q]
 			s, ok := g.wait(c40Wait)
